@@ -166,7 +166,7 @@ func VerifC02Dense() {
 func VerifC02Sparse() {
 	lens, k := []int{17, 20, 24, 25}, 1
 	if vrt_Tier() > 0 {
-		lens, k = []int{19, 20, 21, 22, 23, 24, 25, 26, 27, 28, 30, 33, 36, 40}, 2
+		lens, k = []int{19, 20, 22, 24, 25, 28}, 2
 	}
 	l := lens[vrt_Choose("L", len(lens))]
 	data := vrt_Bytes("data", l)
